@@ -113,6 +113,12 @@ type c15Cluster struct {
 	// middle of a change: the config retry timeout expired on a writer that was slow, not dead.
 	presumedDead bool
 	recoveryOps  int
+	// lastRegistry: node -> the registry document as that node last read it (nil = it read "no registry").
+	lastRegistry map[string]*GatewayRegistry
+	// cleanups: classes of the config-document deletions performed by waitForConfigDelete since the last
+	// ClearPresumedDead/Reset: what the cleaning node's registry snapshot said about the database versus the
+	// version of the document it actually removed.
+	cleanups map[string]int
 }
 
 func newC15Cluster(t testing.TB) *c15Cluster {
@@ -126,7 +132,8 @@ func newC15Cluster(t testing.TB) *c15Cluster {
 		t.Skip("C15 harness runs on the rosmar backing store")
 	}
 	return &c15Cluster{t: t, ctx: ctx, tb: tb, bucket: tb.GetName(), raw: raw, writes: map[string][]*c15CfgWrite{},
-		inflight: map[string]int{}, pollStart: map[string]int64{}, lastRead: map[string]string{}, pollN: map[string]int{}}
+		inflight: map[string]int{}, pollStart: map[string]int64{}, lastRead: map[string]string{}, pollN: map[string]int{},
+		lastRegistry: map[string]*GatewayRegistry{}, cleanups: map[string]int{}}
 }
 
 func (cl *c15Cluster) Close() { cl.tb.Close(cl.ctx) }
@@ -376,7 +383,60 @@ func (c *c15Conn) GetMetadataDocument(ctx context.Context, bucket, key string, v
 		return 0, err
 	}
 	cas, e := c.BootstrapConnection.GetMetadataDocument(ctx, bucket, key, valuePtr)
+	if key == base.SGRegistryKey {
+		c.node.cl.noteRegistryRead(c.node.Name, valuePtr, e)
+	}
 	return cas, c.post(op, fa, e)
+}
+
+// noteRegistryRead remembers what the node saw when it last read the registry document.
+func (cl *c15Cluster) noteRegistryRead(node string, valuePtr any, err error) {
+	var snap *GatewayRegistry
+	if err == nil {
+		if g, ok := valuePtr.(*GatewayRegistry); ok && g != nil {
+			if b, merr := json.Marshal(g); merr == nil {
+				var cp GatewayRegistry
+				if json.Unmarshal(b, &cp) == nil {
+					snap = &cp
+				}
+			}
+		}
+	} else if !base.IsDocNotFoundError(err) {
+		return
+	}
+	cl.mu.Lock()
+	cl.lastRegistry[node] = snap
+	cl.mu.Unlock()
+}
+
+// classifyCleanup: a node is about to delete a config document from waitForConfigDelete. Compare the document
+// it removes with what the node's own registry snapshot says is being deleted.
+func (cl *c15Cluster) classifyCleanup(node, keyClass string) string {
+	db := strings.TrimSuffix(strings.TrimPrefix(keyClass, "cfg("), ")")
+	docVersion := ""
+	if b, _, ok := cl.rawGet(cl.cfgKey(db)); ok {
+		var c struct {
+			Version string `json:"version"`
+		}
+		_ = json.Unmarshal(b, &c)
+		docVersion = c.Version
+	}
+	cl.mu.Lock()
+	snap := cl.lastRegistry[node]
+	cl.mu.Unlock()
+	var entry *RegistryDatabase
+	if snap != nil && snap.ConfigGroups[c15Group] != nil {
+		entry = snap.ConfigGroups[c15Group].Databases[db]
+	}
+	switch {
+	case entry == nil:
+		return "snapshot-has-no-entry"
+	case entry.IsDeleted() && entry.PreviousVersion != nil && entry.PreviousVersion.Version == docVersion:
+		return "document-is-the-version-being-deleted"
+	case entry.IsDeleted() && entry.PreviousVersion != nil:
+		return "document-version-differs-from-version-being-deleted"
+	}
+	return "snapshot-has-live-entry"
 }
 
 func (c *c15Conn) InsertMetadataDocument(ctx context.Context, bucket, key string, value any) (uint64, error) {
@@ -410,7 +470,17 @@ func (c *c15Conn) DeleteMetadataDocument(ctx context.Context, bucket, key string
 	if err != nil {
 		return err
 	}
+	cleanup := ""
+	if op.Site == "waitForConfigDelete" {
+		cleanup = c.node.cl.classifyCleanup(c.node.Name, op.Key)
+	}
 	e := c.BootstrapConnection.DeleteMetadataDocument(ctx, bucket, key, cas)
+	if cleanup != "" && e == nil {
+		op.Site += "[" + cleanup + "]"
+		c.node.cl.mu.Lock()
+		c.node.cl.cleanups[cleanup]++
+		c.node.cl.mu.Unlock()
+	}
 	return c.post(op, fa, e)
 }
 
@@ -703,7 +773,16 @@ func (cl *c15Cluster) Reset() {
 	cl.pollN = map[string]int{}
 	cl.presumedDead = false
 	cl.recoveryOps = 0
+	cl.lastRegistry = map[string]*GatewayRegistry{}
+	cl.cleanups = map[string]int{}
 	cl.mu.Unlock()
+}
+
+// Cleanups returns how many config documents waitForConfigDelete removed in the given class.
+func (cl *c15Cluster) Cleanups(class string) int {
+	cl.mu.Lock()
+	defer cl.mu.Unlock()
+	return cl.cleanups[class]
 }
 
 func (cl *c15Cluster) PresumedDead() bool { cl.mu.Lock(); defer cl.mu.Unlock(); return cl.presumedDead }
@@ -711,6 +790,7 @@ func (cl *c15Cluster) ClearPresumedDead() {
 	cl.mu.Lock()
 	cl.presumedDead = false
 	cl.recoveryOps = 0
+	cl.cleanups = map[string]int{}
 	cl.mu.Unlock()
 }
 func (cl *c15Cluster) RecoveryOps() int { cl.mu.Lock(); defer cl.mu.Unlock(); return cl.recoveryOps }
